@@ -80,6 +80,7 @@ def WState.stepE (w : WState) (op : WOp) : WState × List Eff :=
            ⟨lb.v.key, -o.insuranceTokens, acc lb + (o.liabBooks.asv + o.liabBooks.lsv + 1), 0⟩])
       | .error _ => (w, [])
     | _, _, _, _ => (w, [])
+  | .transfer ai signer newKey newAuth feeWalletOk => (w.step (.transfer ai signer newKey newAuth feeWalletOk), [])
   | .accrue bi =>
     match w.banks[bi]? with
     | some b =>
@@ -398,6 +399,50 @@ theorem stepE_sound (w : WState) (g : Ghost) (op : WOp) (hi : SInv w) (hop : op.
   cases op with
   | tick dt =>
     exact ⟨⟨⟨hi.led.keys, hi.led.ledgerA, hi.led.ledgerL⟩, hi.slots, hi.dust, hi.banks⟩, same_pot⟩
+  | transfer ai signer newKey newAuth ok =>
+    have hbanks : (w.step (.transfer ai signer newKey newAuth ok)).banks = w.banks ∧
+        (w.step (.transfer ai signer newKey newAuth ok)).g = w.g ∧
+        (w.step (.transfer ai signer newKey newAuth ok)).dustA = w.dustA ∧
+        (w.step (.transfer ai signer newKey newAuth ok)).dustL = w.dustL := by
+      simp only [WState.step]
+      split
+      · exact ⟨rfl, rfl, rfl, rfl⟩
+      · split
+        · split
+          · exact ⟨rfl, rfl, rfl, rfl⟩
+          · exact ⟨rfl, rfl, rfl, rfl⟩
+        · exact ⟨rfl, rfl, rfl, rfl⟩
+    have hslots : ∀ (i : Nat) (a : AcctV), (w.step (.transfer ai signer newKey newAuth ok)).accts[i]? = some a → AllNN a.slots := by
+      simp only [WState.step]
+      split
+      · exact hi.slots
+      · split
+        · rename_i a ha
+          split
+          · rename_i o n ho
+            obtain ⟨e1, e2, _, _⟩ := transferIx_ok ho
+            intro i x hx
+            have hm := List.mem_of_getElem? hx
+            simp only at hm
+            rcases List.mem_append.mp hm with hm | hm
+            · rcases List.mem_or_eq_of_mem_set hm with hm | hm
+              · obtain ⟨i', hi'⟩ := List.getElem?_of_mem hm
+                exact hi.slots i' x hi'
+              · rw [hm, e1]
+                intro s hs
+                have := List.eq_of_mem_replicate (show s ∈ List.replicate 16 Account.emptySlot from hs)
+                rw [this]; exact ⟨Int.le_refl _, Int.le_refl _⟩
+            · rw [List.mem_singleton] at hm
+              rw [hm, e2]; exact hi.slots ai a ha
+          · exact hi.slots
+        · exact hi.slots
+    simp only [WState.stepE]
+    refine ⟨⟨step_inv w _ hi.led, hslots, ?_, ?_⟩, ?_⟩
+    · intro k; rw [hbanks.2.2.1, hbanks.2.2.2]; exact hi.dust k
+    · intro j b hb; rw [hbanks.1] at hb; rw [hbanks.2.1]; exact hi.banks j b hb
+    · intro j x x' hx hx'
+      rw [hbanks.1] at hx'
+      exact same_pot j x x' hx hx'
   | accrue bi =>
     simp only [WState.stepE]
     split
@@ -618,6 +663,15 @@ theorem stepE_bank (w : WState) (op : WOp) (j : Nat) (x : WBank) (hx : w.banks[j
     · simp only [h, if_false]; exact ⟨x, hx, rfl⟩
   cases op with
   | tick dt => exact ⟨x, hx, rfl⟩
+  | transfer ai signer newKey newAuth ok =>
+    simp only [WState.step]
+    split
+    · exact ⟨x, hx, rfl⟩
+    · split
+      · split
+        · exact ⟨x, hx, rfl⟩
+        · exact ⟨x, hx, rfl⟩
+      · exact ⟨x, hx, rfl⟩
   | accrue bi =>
     simp only [WState.step]
     split
